@@ -145,13 +145,29 @@ def run_check(prop, tier, base_seed, runs=None, workers=None, write_evidence=Tru
 
     for v in new:
         wl = workloads.get(v['workload'])
-        small = kernel.shrink(wl, v['schedule'], prop, v['signature'])
-        vv = kernel.fails_with(wl, small, prop, v['signature']) or v
+        history = []
+        if kernel.fails_after(wl, [], v['schedule'], prop, v['signature']) is None:
+            # not on a fresh process: the violation needs what the library remembered of earlier runs of its chunk (state
+            # kept outside the objects of one run - module- or class-level). The earlier runs of the chunk, regenerated
+            # from their seeds, become the history of the replay; as many of them as can be are dropped.
+            import random as _random
+
+            for j in range(v.get('chunk_lo', v['idx']), v['idx']):
+                sd = kernel.derive_seed(base_seed, prop, v['stratum'], j)
+                hs = wl.generate(_random.Random(sd), j, tier)
+                hs['seed'], hs['run_index'] = sd, j
+                history.append(hs)
+            if kernel.fails_after(wl, history, v['schedule'], prop, v['signature']) is not None:
+                history = kernel.shrink_history(wl, history, v['schedule'], prop, v['signature'])
+        small = kernel.shrink(wl, v['schedule'], prop, v['signature'], history=history)
+        vv = kernel.fails_after(wl, history, small, prop, v['signature']) or v
         v2 = dict(v, step=vv['step'], detail=vv['detail'])
-        path = kernel.write_replay(prop, v2, small, base_seed, tier)
+        path = kernel.write_replay(prop, v2, small, base_seed, tier, history=history)
         ok, outp = kernel.replay_in_fresh_process(path)
         if not ok:
             raise kernel.HarnessError(f"replay file {path} did not reproduce {v['signature']} in a fresh interpreter:\n{outp}")
+        if history:
+            print(f"violation needs {len(history)} earlier run(s) of the same process (state remembered outside the run's own objects): replayed first")
         print(f"violation: {v['signature']} seed={v['seed']} run_index={v['idx']} stratum={v['stratum']} minimised to {len(small.get('ops', []))} op(s); detail={kernel.dumps(vv['detail'])[:400]}")
         print(f'VIOLATION property={prop} replay={path}')
         replays.append(path)
